@@ -27,6 +27,8 @@
 (***************************************************************************)
 EXTENDS Integers, Sequences, FiniteSets, TLC
 
+CONSTANT Small      \* TRUE: one data layout and fewer option values (quick tier); FALSE: everything
+
 Range(f) == {f[i] : i \in DOMAIN f}
 SumSeq(s) == LET S[k \in 0..Len(s)] == IF k = 0 THEN 0 ELSE S[k - 1] + s[k] IN S[Len(s)]
 D2(a, b) == SumSeq([i \in 1..Len(a) |-> (a[i] - b[i]) * (a[i] - b[i])])
@@ -40,6 +42,8 @@ Ones(n) == [i \in 1..n |-> 1]
 \* the k elements of S with the smallest key (keys pairwise distinct on S)
 NearestK(S, key(_), k) == {s \in S : Cardinality({t \in S : key(t) < key(s)}) < k}
 DistinctOn(S, key(_)) == \A s, t \in S : s # t => key(s) # key(t)
+\* no tie between the k-th and the (k+1)-th smallest key (ties inside the selected set are harmless)
+CutDecided(S, key(_), k) == Cardinality(NearestK(S, key, k)) = (IF Cardinality(S) < k THEN Cardinality(S) ELSE k)
 
 -----------------------------------------------------------------------------
 (* Models of the fixed list of the harness: number of variables, dimension   *)
@@ -52,7 +56,7 @@ NDrift(drift, ndim) == CASE drift = "sk" -> 0 [] drift = "ok" -> 1 [] drift = "l
 Lay2 == << <<0, 0>>, <<4, 2>>, <<2, 6>>, <<6, 4>>, <<2, 2>>, <<6, 0>> >>
 Lay2b == << <<0, 4>>, <<2, 0>>, <<6, 2>>, <<4, 6>>, <<8, 4>>, <<4, 2>> >>
 Lay3 == << <<0, 0, 0>>, <<4, 2, 2>>, <<2, 6, 0>>, <<6, 4, 4>>, <<2, 2, 6>>, <<6, 0, 2>> >>
-Tgt2 == << <<3, 3>>, <<7, 1>>, <<1, 5>>, <<5, 5>> >>
+Tgt2 == << <<3, 3>>, <<7, 1>>, <<1, 4>>, <<5, 5>> >>
 Tgt3 == << <<3, 3, 1>>, <<5, 1, 3>>, <<1, 5, 5>> >>
 LayOf(m, which) == IF NDimOf(m) = 3 THEN Lay3 ELSE IF which = 1 THEN Lay2 ELSE Lay2b
 TgtOf(m) == IF NDimOf(m) = 3 THEN Tgt3 ELSE Tgt2
@@ -106,9 +110,9 @@ MovSelect(pts, sel, def, t, R2, nmaxi, nmini) ==
   LET adm == MovAdmissible(pts, sel, def, t, R2)
   IN IF Cardinality(adm) < nmini THEN {}
      ELSE NearestK(adm, LAMBDA s : D2(pts[s], t), nmaxi)
-\* no tie at the cut and no sample on the radius (the excluded boundary cases)
-MovDecided(pts, S, t, R2) ==
-  /\ DistinctOn(S, LAMBDA s : D2(pts[s], t))
+\* the excluded boundary cases: a tie at the nmaxi cut, a sample on the radius
+MovDecided(pts, S, t, R2, nmaxi) ==
+  /\ CutDecided({s \in S : InRadius(pts[s], t, R2)}, LAMBDA s : D2(pts[s], t), nmaxi)
   /\ \A s \in S : R2 = 0 \/ D2(pts[s], t) # R2
 
 -----------------------------------------------------------------------------
@@ -223,7 +227,7 @@ KBase(c) == [model |-> c.model, ndim |-> NDimOf(c.model), drift |-> c.drift, pts
 KDomain(models, drifts, ns) ==
   UNION {
     {[model |-> m, drift |-> d, lay |-> l, n |-> n, sel |-> sel, def |-> def] :
-       d \in drifts, l \in {1, 2}, sel \in SelMasks(n), def \in DefPatterns(n, NVarOf(m))}
+       d \in drifts, l \in (IF Small THEN {1} ELSE {1, 2}), sel \in SelMasks(n), def \in DefPatterns(n, NVarOf(m))}
     : m \in models, n \in ns}
 
 -----------------------------------------------------------------------------
@@ -308,29 +312,36 @@ MigFastIntended(c, t) == MigRef(c, t)
 MigFastCode(c, t) ==
   LET s == CHOOSE s \in 1..c.n : \A u \in 1..c.n : D2(c.pts[s], t) <= D2(c.pts[u], t)
   IN IF LargerThanDmax(c.pts[s], t, c.dmax) THEN 0 ELSE s
-MigDecided(c, t) == /\ DistinctOn(1..c.n, LAMBDA s : D2(c.pts[s], t))
-                    /\ \A s \in 1..c.n : ~OnDmaxBoundary(c.pts[s], t, c.dmax)
+\* decided: a single closest sample overall and among the candidates of the reference, nobody on the limit
+MigDecided(c, t) ==
+  /\ CutDecided(1..c.n, LAMBDA s : D2(c.pts[s], t), 1)
+  /\ CutDecided({s \in 1..c.n : c.sel[s] = 1 /\ ~LargerThanDmax(c.pts[s], t, c.dmax)}, LAMBDA s : D2(c.pts[s], t), 1)
+  /\ \A s \in 1..c.n : ~OnDmaxBoundary(c.pts[s], t, c.dmax)
 MigActiveTargets(c) == {i \in 1..Len(c.tgt) : c.tsel[i] = 1}
-MigPromised(c) == \A i \in MigActiveTargets(c) : MigDecided(c, c.tgt[i])
+MigPromisedAt(c, i) == c.tsel[i] = 0 \/ MigDecided(c, c.tgt[i])
+MigPromised(c) == \E i \in MigActiveTargets(c) : MigDecided(c, c.tgt[i])
 \* where the transcription leaves the definition: the design-level deviations found by TLC
 MigDeviation(c, t) ==
   IF MigFastCode(c, t) = MigRef(c, t) THEN "none"
   ELSE LET s == CHOOSE s \in 1..c.n : \A u \in 1..c.n : D2(c.pts[s], t) <= D2(c.pts[u], t)
        IN IF c.sel[s] = 0 THEN "masked_nearest" ELSE "dmax_nearest_outside"
-MigKeys == {3, 4, 5, 6}
-MigPart(n) ==
+MigKeys == {<<n, l>> : n \in {3, 4, 5, 6}, l \in {1, 2}}
+MigPart(key) ==
+  LET n == key[1]  lay == IF key[2] = 1 THEN Lay2 ELSE Lay2b IN
   {[pair |-> "ball_mig", n |-> n, pts |-> Prefix(lay, n), sel |-> sel, tgt |-> Tgt2, tsel |-> ts, dmax |-> dm] :
-     lay \in {Lay2, Lay2b}, sel \in SelMasks(n), ts \in {Ones(4), <<1, 0, 1, 1>>},
+     sel \in SelMasks(n), ts \in {Ones(4), <<1, 0, 1, 1>>},
      dm \in {[kind |-> "none", a |-> 0, b |-> 0], [kind |-> "l2", a |-> 5, b |-> 5], [kind |-> "l2", a |-> 3, b |-> 3],
              [kind |-> "l2", a |-> 7, b |-> 3], [kind |-> "l1", a |-> 3, b |-> 3], [kind |-> "l1", a |-> 5, b |-> 2],
-             [kind |-> "l2", a |-> 2, b |-> 6]}}
+             [kind |-> "l2", a |-> 2, b |-> 6], [kind |-> "l1", a |-> 7, b |-> 1], [kind |-> "l1", a |-> 1, b |-> 7],
+             [kind |-> "l2", a |-> 9, b |-> 2], [kind |-> "l2", a |-> 2, b |-> 9], [kind |-> "l1", a |-> 4, b |-> 2]}}
 MigHoldsIntended(c) == \A i \in MigActiveTargets(c) : MigFastIntended(c, c.tgt[i]) = MigRef(c, c.tgt[i])
-MigDeviations(c) == {MigDeviation(c, c.tgt[i]) : i \in MigActiveTargets(c)} \ {"none"}
+MigDeviations(c) == {MigDeviation(c, c.tgt[i]) : i \in {j \in MigActiveTargets(c) : MigDecided(c, c.tgt[j])}} \ {"none"}
 MigEmit(c) ==
   [pair |-> "ball_mig", ndim |-> 2, pts |-> c.pts, sel |-> c.sel, tgt |-> c.tgt, tsel |-> c.tsel,
    dmaxkind |-> c.dmax.kind, dmaxa |-> c.dmax.a, dmaxb |-> c.dmax.b,
    expected |-> [i \in 1..Len(c.tgt) |-> IF c.tsel[i] = 0 THEN -1 ELSE MigRef(c, c.tgt[i]) - 1],
    deviation |-> [i \in 1..Len(c.tgt) |-> IF c.tsel[i] = 0 THEN "none" ELSE MigDeviation(c, c.tgt[i])],
+   decided |-> [i \in 1..Len(c.tgt) |-> MigPromisedAt(c, i)],
    promised |-> MigPromised(c)]
 
 -----------------------------------------------------------------------------
@@ -349,14 +360,16 @@ BallNbFast(c, t) ==
 BallNbRef(c, t) == MovSelect(c.pts, c.sel, c.def, t, c.R2, c.nmaxi, c.nmini)
 BallNbSide(c, t) ==
   /\ c.nmaxi <= c.n
-  /\ MovDecided(c.pts, 1..c.n, t, c.R2)
+  /\ CutDecided(1..c.n, LAMBDA s : D2(c.pts[s], t), c.nmaxi)
+  /\ MovDecided(c.pts, Usable(c.sel, c.def), t, c.R2, c.nmaxi)
+  /\ \A s \in 1..c.n : c.R2 = 0 \/ D2(c.pts[s], t) # c.R2
   /\ \A s \in BallNearest(c, t) : s \in MovAdmissible(c.pts, c.sel, c.def, t, c.R2)
-BallNbKeys == {<<n, l>> : n \in {4, 5, 6}, l \in {1, 2}}
+BallNbKeys == UNION {{<<n, l, sel>> : l \in (IF Small THEN {1} ELSE {1, 2}), sel \in SelMasks(n)} : n \in {4, 5, 6}}
 BallNbPart(key) ==
-  LET n == key[1]  lay == IF key[2] = 1 THEN Lay2 ELSE Lay2b IN
+  LET n == key[1]  lay == IF key[2] = 1 THEN Lay2 ELSE Lay2b  sel == key[3] IN
   {[pair |-> "ball_nb", model |-> "A", drift |-> "ok", n |-> n, pts |-> Prefix(lay, n), sel |-> sel, def |-> def,
     tgt |-> Tgt2, R2 |-> R2, nmaxi |-> nmaxi, nmini |-> nmini, leaf |-> leaf] :
-     sel \in SelMasks(n), def \in DefPatterns(n, 1),
+     def \in DefPatterns(n, 1),
      R2 \in {0, 400, 30}, nmaxi \in {2, 3, 4, 6}, nmini \in {1, 2}, leaf \in {1, 2, 10}}
 BallNbPromisedAt(c, i) == BallNbSide(c, c.tgt[i]) /\ Cardinality(BallNbRef(c, c.tgt[i])) >= 2
 BallNbHolds(c) == \A i \in 1..Len(c.tgt) : BallNbSide(c, c.tgt[i]) => BallNbFast(c, c.tgt[i]) = BallNbRef(c, c.tgt[i])
@@ -471,7 +484,8 @@ ReuseKeys(models) == KDomain({m \in models : NDimOf(m) = 2}, {"sk", "ok"}, {5, 6
 ReuseAll(k) ==
   {[pair |-> "reuse", model |-> k.model, drift |-> k.drift, lay |-> k.lay, n |-> k.n, sel |-> k.sel, def |-> k.def,
     tseq |-> ts, R2 |-> R2, nmaxi |-> nmaxi, nmini |-> 1, neigh |-> ng] :
-     ts \in {<<1, 2, 4, 5>>, <<1, 3, 7, 2>>, <<4, 5, 6, 1>>, <<2, 7, 1, 3>>, <<5, 4, 2, 6>>, <<6, 1, 4, 7>>, <<3, 7, 2, 1>>},
+     ts \in (IF Small THEN {<<1, 2, 4, 5>>, <<1, 3, 7, 2>>, <<5, 4, 2, 6>>}
+              ELSE {<<1, 2, 4, 5>>, <<1, 3, 7, 2>>, <<4, 5, 6, 1>>, <<2, 7, 1, 3>>, <<5, 4, 2, 6>>, <<6, 1, 4, 7>>, <<3, 7, 2, 1>>}),
      R2 \in {0, 40}, nmaxi \in {2, 3, 4}, ng \in {"moving", "unique"}}
 ReuseTgts(c) == [i \in 1..Len(c.tseq) |-> Tgt8[c.tseq[i]]]
 ReuseNbgh(c, i) ==
@@ -481,7 +495,7 @@ ReuseCanonical(c) == c.neigh = "unique" => (c.R2 = 0 /\ c.nmaxi = 2)
 ReusePart(k) == {c \in ReuseAll(k) : ReuseCanonical(c)}
 ReusePromised(c) ==
   \A i \in 1..Len(c.tseq) :
-     /\ MovDecided(KPts(c), KUsable(c), ReuseTgts(c)[i], c.R2)
+     /\ (c.neigh = "unique" \/ MovDecided(KPts(c), KUsable(c), ReuseTgts(c)[i], c.R2, c.nmaxi))
      /\ ReuseNbgh(c, i) # {}
      /\ EnoughData(SortedSeq(ReuseNbgh(c, i)), c.def, NVarOf(c.model), KNd(c))
 \* ANeigh::select / _checkUnchanged: unchanged iff same sorted set as for the previous target
